@@ -286,7 +286,9 @@ def make_regions_run(nxp):
         eq.x_points = [Point2D(ctx.real("Rx%d" % k), ctx.real("Zx%d" % k)) for k in range(nxp)]
         xs = list(eq.x_points)
         psinorm_sol = ctx.real("psinorm_sol")
-        eq.user_options = types.SimpleNamespace(psi_core=None, psinorm_core=0.9, psi_sol=None, psinorm_sol=psinorm_sol, psi_sol_inner=None, psinorm_sol_inner=None, psi_pf_lower=None, psinorm_pf_lower=0.9, psi_pf_upper=None, psinorm_pf_upper=0.9, poloidal_spacing_delta_psi=0.001)
+        pn = {k: ctx.real("psinorm_" + k) for k in ("core", "sol_inner", "pf_lower", "pf_upper")}
+        explicit_pf_upper = ctx.real("psi_pf_upper_given")
+        eq.user_options = types.SimpleNamespace(psi_core=None, psinorm_core=pn["core"], psi_sol=None, psinorm_sol=psinorm_sol, psi_sol_inner=None, psinorm_sol_inner=pn["sol_inner"], psi_pf_lower=None, psinorm_pf_lower=pn["pf_lower"], psi_pf_upper=explicit_pf_upper, psinorm_pf_upper=pn["pf_upper"], poloidal_spacing_delta_psi=0.001)
         wall = [(1.0, -1.0), (2.0, -1.2), (2.2, 1.0), (0.9, 1.1)]  # anticlockwise, NOT explicitly closed (C11 wall contract)
         eq.wall = [Point2D(*w) for w in wall]
         asked = []
@@ -323,6 +325,10 @@ def make_regions_run(nxp):
                 ctx.oblige(TRUE(k is not None and abs(q["r1"][0] - Rc) < 1e-12 and abs(q["z1"][0] - Zc) < 1e-12), "inside-wall test: segment from the centre of the wall's bounding box to the X-point")
                 ctx.oblige(TRUE(q["r2"] == [w[0] for w in wall] and q["z2"] == [w[1] for w in wall] and q["closed2"] is True), "inside-wall test: against every wall edge INCLUDING the closing edge (the wall list is not explicitly closed)")
                 q["k"] = k
+            # requested radial limits: psi_* if given, else psi_axis + psinorm_* (psi_sep[0] - psi_axis), each from ITS OWN option
+            to_psi = lambda x: eq.psi_axis + x * (psis[0] - eq.psi_axis)
+            ctx.oblige(And(eq.psi_core == to_psi(pn["core"]), eq.psi_sol == to_psi(psinorm_sol), eq.psi_sol_inner == to_psi(pn["sol_inner"]), eq.psi_pf_lower == to_psi(pn["pf_lower"])), "psi_core / psi_sol / psi_sol_inner / psi_pf_lower from the psinorm option of the same name (primary separatrix = 1)")
+            ctx.oblige(eq.psi_pf_upper == explicit_pf_upper, "an explicitly given psi_* limit takes precedence over its psinorm_*")
             pn = lambda v: (v - eq.psi_axis) / (psis[0] - eq.psi_axis)
             keep_spec = []
             for k in range(nxp):
